@@ -18,7 +18,7 @@
 use std::cell::RefCell;
 use std::ops::{Index, IndexMut};
 
-pub const MAX_TASKS: usize = 8;
+pub const MAX_TASKS: usize = 12;
 pub const N_SLOTS: usize = 30;
 pub const TABLE_LAYERS: u8 = 0;
 pub const TABLE_CSTS: u8 = 1;
